@@ -73,6 +73,12 @@ Definition op_draws (b : backend) (o : rop) : list nat :=
 Definition fresh (R : rng) : Prop :=
   forall i j n m x y, i <> j -> R i n = Some x -> R j m = Some y -> x <> [] -> x <> y.
 
+(* the same, for the first [hi] calls only.  ([fresh] on all of nat is an idealisation: a source that never
+   fails and serves blocks of the requested length cannot be fresh for ever — 257 one-byte blocks — so the
+   theorems about histories take [fresh_below R hi] for a bound [hi] beyond the history's last call.) *)
+Definition fresh_below (R : rng) (hi : nat) : Prop :=
+  forall i j n m x y, i < hi -> j < hi -> i <> j -> R i n = Some x -> R j m = Some y -> x <> [] -> x <> y.
+
 (* ---- executable shape of a history under a source that fails at one global call index ---- *)
 Definition script_rng (fail_at : option nat) : rng :=
   fun i n => match fail_at with
